@@ -5,7 +5,8 @@ use crate::minimise;
 use crate::oracle::{self, References, Violation};
 use crate::plan::*;
 use crate::rng::{fnv_str, mix, Fnv};
-use crate::sched::{self, Counters, Outcome};
+use crate::sched::{Counters, Outcome};
+use std::time::Duration;
 use crate::strata::{TaskInfo, World};
 use crate::workload;
 use serde_json::json;
@@ -25,6 +26,7 @@ pub struct ChildArgs {
     pub only: Option<(String, u64)>,
     pub strata: Vec<String>,
     pub max_minimise: usize,
+    pub run_timeout_s: u64,
 }
 
 fn emit(v: serde_json::Value) {
@@ -59,15 +61,16 @@ fn outcome_hash(o: &Outcome, steps: u32) -> u64 {
         Outcome::Budget(n) => f.str(&format!("budget {n}")),
         Outcome::Crashed => f.str("crashed"),
         Outcome::ParseFail(m) => f.str(&format!("parse {m}")),
+        Outcome::Died(m) => f.str(&format!("died {m}")),
     }
     f.0
 }
 
 /// Stratum 1: the solo table of the whole workload, under this process's hash keys.
-pub fn load(workload_dir: &str, key_seed: u64, progress: bool) -> Loaded {
+pub fn load(workload_dir: &str, key_seed: u64, progress: bool, timeout: Duration) -> Loaded {
     let mods = workload::discover(workload_dir);
     let tasks = workload::tasks(&mods);
-    let mut refs = References::new(key_seed);
+    let mut refs = References::new(key_seed, timeout);
     let mut info = vec![];
     let mut solo_hashes = vec![];
     let mut solo_violations: Vec<Violation> = vec![];
@@ -102,6 +105,7 @@ struct Stats {
     audits: u64,
     audit_mismatch: u64,
     minimise_execs: u64,
+    deaths: u64,
 }
 
 fn add(a: &mut Counters, b: &Counters) {
@@ -158,7 +162,7 @@ fn sanitize(s: &str) -> String {
 pub fn child_main(a: ChildArgs) -> i32 {
     let t0 = std::time::Instant::now();
     let key_seed = mix(a.seed ^ 0x50_10 ^ (a.index << 20));
-    let ld = load(&a.workload_dir, key_seed, true);
+    let ld = load(&a.workload_dir, key_seed, true, Duration::from_secs(a.run_timeout_s));
     let Loaded { tasks, mut refs, info, solo_hashes, solo_violations, parse_failures, modules } = ld;
     emit(json!({"solo_table": {"tasks": tasks.len(), "modules": modules, "ms": t0.elapsed().as_millis() as u64,
         "hashes": solo_hashes.iter().map(|(k,h)| json!([k, format!("{h:016x}")])).collect::<Vec<_>>(),
@@ -233,57 +237,68 @@ pub fn child_main(a: ChildArgs) -> i32 {
             }
             emit(json!({"s": stratum, "run": run}));
             let (plan, script) = world.plan(stratum, run);
-            let budgets = refs.budgets(&plan);
-            let rec = sched::execute(&plan, if script.is_empty() { None } else { Some(&script) }, &budgets);
-            let chk = oracle::check(&plan, &rec, &mut refs);
+            let script_opt: Option<&[Action]> = if script.is_empty() { None } else { Some(&script) };
+            let res = oracle::run_forked(&plan, script_opt, &mut refs);
             *st.runs.entry(stratum.to_string()).or_default() += 1;
-            st.steps += rec.counters.events;
-            add(&mut st.c, &rec.counters);
-            st.tasks_compared += chk.tasks_compared as u64;
-            st.tasks_faulted += chk.tasks_faulted as u64;
-            let faults_fired = rec.counters.crash_fired + rec.counters.emitter_crash_fired + rec.counters.worker_replaced + rec.counters.globals_restarted;
-            let nontrivial = rec.counters.live_switches > 0 || faults_fired > 0;
-            inter_all.insert(rec.interleaving);
-            if nontrivial {
-                st.nontrivial += 1;
-                inter_nontrivial.insert(rec.interleaving);
-            }
-            if !sampled && nontrivial && a.index == 0 {
-                sampled = true;
-                samples.push(describe(&plan, &rec.trace));
-            }
-            if !chk.parse_failures.is_empty() {
-                harness_errors.push(format!("parse failure inside a simulated run: {:?}", chk.parse_failures));
-            }
-            // self-audit: the same (plan, decisions) again must give the same event log
-            if a.audit_every > 0 && run % a.audit_every == (a.seed % a.audit_every) {
-                st.audits += 1;
-                let rec2 = sched::execute(&plan, if script.is_empty() { None } else { Some(&script) }, &budgets);
-                if rec2.log_hash != rec.log_hash || rec2.trace != rec.trace {
-                    st.audit_mismatch += 1;
-                    harness_errors.push(format!("self-audit: {stratum} run {run} gave two different event logs"));
+            let violations = oracle::violations_of(&res);
+            let mut trace: Vec<Action> = vec![];
+            match &res {
+                Ok(s) => {
+                    trace = s.trace.clone();
+                    st.steps += s.counters.events;
+                    add(&mut st.c, &s.counters);
+                    st.tasks_compared += s.checked.tasks_compared as u64;
+                    st.tasks_faulted += s.checked.tasks_faulted as u64;
+                    let faults_fired = s.counters.crash_fired + s.counters.emitter_crash_fired + s.counters.worker_replaced + s.counters.globals_restarted;
+                    let nontrivial = s.counters.live_switches > 0 || faults_fired > 0;
+                    inter_all.insert(s.interleaving);
+                    if nontrivial {
+                        st.nontrivial += 1;
+                        inter_nontrivial.insert(s.interleaving);
+                    }
+                    if !sampled && nontrivial && a.index == 0 && plan.tasks.len() <= 8 {
+                        sampled = true;
+                        samples.push(describe(&plan, &s.trace));
+                    }
+                    if !s.checked.parse_failures.is_empty() {
+                        harness_errors.push(format!("parse failure inside a simulated run: {:?}", s.checked.parse_failures));
+                    }
+                    // self-audit: the same (plan, decisions) again, in another fork, must give the same event log
+                    if a.audit_every > 0 && run % a.audit_every == (a.seed % a.audit_every) {
+                        st.audits += 1;
+                        match oracle::run_forked(&plan, script_opt, &mut refs) {
+                            Ok(s2) if s2.log_hash == s.log_hash && s2.trace == s.trace => {}
+                            _ => {
+                                st.audit_mismatch += 1;
+                                harness_errors.push(format!("self-audit: {stratum} run {run} gave two different event logs"));
+                            }
+                        }
+                    }
+                }
+                Err(_) => {
+                    st.deaths += 1;
                 }
             }
-            for v in chk.violations {
+            for v in violations {
                 if v.fingerprint == "solo" {
                     continue; // reported by stratum 1
                 }
                 violations_total += 1;
-                let module = plan.tasks[v.task_idx].name.clone();
+                let module = if v.is_death() { format!("{stratum}:{run}") } else { plan.tasks[v.task_idx].name.clone() };
                 let sig = (v.class().to_string(), module.clone(), v.component.clone());
                 if seen_sigs.contains(&sig) || minimised >= a.max_minimise {
                     continue;
                 }
                 seen_sigs.insert(sig);
                 minimised += 1;
-                match minimise::minimise(&plan, &rec.trace, &v, &mut refs) {
+                match minimise::minimise(&plan, &trace, &v, &mut refs) {
                     Ok(f) => {
                         st.minimise_execs += f.executions as u64;
                         let rf = ReplayFile {
                             property: "C08".into(),
-                            note: format!("found by stratum `{}` run {} (seed {}), minimised from {} tasks / {} decisions with {} executions", stratum, run, a.seed, plan.tasks.len(), rec.trace.len(), f.executions),
+                            note: format!("found by stratum `{}` run {} (seed {}), minimised from {} tasks / {} decisions with {} executions", stratum, run, a.seed, plan.tasks.len(), trace.len(), f.executions),
                             plan: f.plan.clone(),
-                            script: Some(encode_script(&f.script)),
+                            script: if f.plan.strategy == Strategy::Script { Some(encode_script(&f.script)) } else { None },
                             expected: Some(f.violation.expected()),
                             detail: f.violation.detail.clone(),
                         };
@@ -316,7 +331,7 @@ pub fn child_main(a: ChildArgs) -> i32 {
         "tasks_compared": st.tasks_compared, "tasks_faulted": st.tasks_faulted, "nontrivial_runs": st.nontrivial,
         "distinct_interleavings": inter_all.len(), "distinct_nontrivial": inter_nontrivial.len(), "fingerprints": fp_path,
         "audits": st.audits, "audit_mismatch": st.audit_mismatch, "minimise_execs": st.minimise_execs,
-        "violations_total": violations_total, "solos_computed": refs.computed,
+        "violations_total": violations_total, "solos_computed": refs.computed, "deaths": st.deaths,
         "samples": samples, "harness_errors": harness_errors,
     }}));
     let _ = fnv_str;
